@@ -45,6 +45,9 @@ class Escape:
         self.model: NodeModel = tokens.model
         self.tokens = tokens
         self.funcs = {q: f for q, f in self.mod.funcs().items() if '#' not in q and q.count('.') <= 1}
+        from .c02_model import inline_cm_with
+        ff = lambda n: self.mod.func(n) if self.mod.has_func(n) and '.' not in n else None
+        self.funcs = {q: (inline_cm_with(f, ff, lambda m, q=q: self.funcs.get(q.split('.')[0] + '.' + m) if '.' in q else None)) for q, f in self.funcs.items()}
         self.local_classes = {n: c for n, c in self.mod.classes().items() if '.' not in n and '#' not in n}
         self.meson_exc = self._meson_exceptions()
         self._paths: T.Dict[str, T.List[Path]] = {}
@@ -321,7 +324,7 @@ class Escape:
                         self.discharged.append(f'{qn}: `{short(n)}` total: {why}')
                 elif name == 'codecs.decode':
                     srcs.append(Source('UnicodeDecodeError', qn, n, 'codecs.decode() rejects escapes the escape regex admits (unknown \\N{name}, \\U above 10FFFF)'))
-                elif name == 'next':
+                elif name == 'next' and len(n.args) == 1 and not n.keywords:      # next(it, default) never raises StopIteration
                     srcs.append(Source('StopIteration', qn, n, 'next() on an exhausted iterator'))
                 elif isinstance(n.func, ast.Attribute) and n.func.attr == 'index' and 1 <= len(n.args) <= 3 and not n.keywords \
                         and not self.is_mapping(qn, n.func.value):
@@ -380,6 +383,8 @@ class Escape:
                     self.discharged.append(f'{qn}: `{short(n)}` total: {why}')
             elif isinstance(n, ast.Raise) and n.exc is not None:
                 k = attr_chain(n.exc.func if isinstance(n.exc, ast.Call) else n.exc) or ''
+                if k not in self.meson_exc and _exc_class(k) is None:
+                    k = self.raised_class(qn, n.exc, 0) or k      # an exception object built by a helper / bound to a local first
                 if k in self.meson_exc:
                     continue
                 if _exc_class(k) is None:
@@ -387,6 +392,33 @@ class Escape:
                 srcs.append(Source(k, qn, n, f'explicit raise of {k}'))
         self.local_sources[qn] = srcs
         self.calls[qn] = calls
+
+    def raised_class(self, qn: str, e: ast.AST, depth: int) -> T.Optional[str]:
+        """Class of the exception object `e` evaluates to in `qn`: a constructor call; a local bound once to one; the call of a
+        method of the same class all of whose returns yield objects of one class.  None when not read."""
+        if depth > 3:
+            return None
+        fn = self.funcs[qn]
+        if isinstance(e, ast.Name):
+            stores = [x for x in ast.walk(fn) if isinstance(x, ast.Name) and x.id == e.id and not isinstance(x.ctx, ast.Load)]
+            defs = [a for a in walk_no_nested(fn) if isinstance(a, ast.Assign) and len(a.targets) == 1 and isinstance(a.targets[0], ast.Name) and a.targets[0].id == e.id]
+            if len(stores) != 1 or len(defs) != 1 or e.id in params_of(fn):
+                return None
+            return self.raised_class(qn, defs[0].value, depth + 1)
+        if not isinstance(e, ast.Call):
+            return None
+        k = attr_chain(e.func) or ''
+        if k in self.meson_exc or _exc_class(k) is not None:
+            return k
+        if k.startswith('self.') and k.count('.') == 1 and self.cls_of(qn):
+            q2 = self.find_method(self.cls_of(qn), k[5:])    # type: ignore[arg-type]
+            if q2 is None or q2 not in self.funcs:
+                return None
+            rets = [r for r in walk_no_nested(self.funcs[q2]) if isinstance(r, ast.Return)]
+            got = {self.raised_class(q2, r.value, depth + 1) if r.value is not None else None for r in rets}
+            if len(got) == 1 and None not in got and not any(isinstance(y, (ast.Yield, ast.YieldFrom)) for y in walk_no_nested(self.funcs[q2])):
+                return got.pop()
+        return None
 
     # int(): total iff every string of the argument language is accepted (K11)
     def int_total(self, qn: str, c: ast.Call) -> T.Optional[str]:
@@ -445,11 +477,23 @@ class Escape:
                     except Undecided:
                         pass
         if isinstance(e, ast.Name):
-            try:
-                return isinstance(fold_expr(self.repo, self.mod, e), dict)
-            except Undecided:
-                return False
+            return self.const_keys(e) is not None
         return False
+
+    def const_keys(self, e: ast.AST) -> T.Optional[T.Set[T.Any]]:
+        """Key set of a constant mapping: the folded value, or - when the row values do not fold (records, classes) - the constant
+        keys of the module-level dict display bound once to the name."""
+        try:
+            v = fold_expr(self.repo, self.mod, e)
+            return set(v) if isinstance(v, dict) else None
+        except Undecided:
+            pass
+        if isinstance(e, ast.Name) and self.mod.has_assign(e.id):
+            d = self.mod.assign_value(e.id)
+            stores = [n for n in ast.walk(self.mod.tree) if isinstance(n, ast.Name) and n.id == e.id and not isinstance(n.ctx, ast.Load)]
+            if isinstance(d, ast.Dict) and d.keys and len(stores) == 1 and all(isinstance(k, ast.Constant) for k in d.keys):
+                return {k.value for k in d.keys}  # type: ignore[union-attr]
+        return None
 
     def subscript_total(self, qn: str, n: ast.Subscript) -> T.Optional[str]:
         fn = self.funcs[qn]
@@ -509,16 +553,21 @@ class Escape:
                 return f'`{k} in {m}` holds on every path'
             if isinstance(idx, ast.Name) and self.cfg_member_guard(qn, n, k, m):
                 return f'dominated by the test `{k} in {m}` with no assignment to `{k}` in between'
+            if isinstance(idx, ast.Name) and isinstance(n.value, ast.Name):
+                why_c = self.cfg_const_guard(qn, n, k)
+                if why_c:
+                    return why_c
         # (c) constant mapping indexed by the truthy result of accept_any(<the same mapping>)
         if isinstance(idx, ast.Name) and self.is_mapping(qn, n.value):
             defs = [s for s in walk_no_nested(fn) if isinstance(s, ast.Assign) and any(isinstance(t, ast.Name) and t.id == idx.id for t in s.targets)]
             if defs and all(isinstance(d.value, ast.Call) and attr_chain(d.value.func) == 'self.accept_any' and len(d.value.args) == 1 for d in defs) \
                     and self.accept_any_returns_member():
-                have = set(fold_expr(self.repo, self.mod, n.value))
+                have = self.const_keys(n.value) or set()
                 missing: T.Set[str] = set()
                 for d in defs:
                     try:
-                        missing |= set(fold_expr(self.repo, self.mod, d.value.args[0])) - have  # type: ignore[attr-defined]
+                        ak = self.const_keys(d.value.args[0])  # type: ignore[attr-defined]
+                        missing |= (ak if ak is not None else set(fold_expr(self.repo, self.mod, d.value.args[0]))) - have  # type: ignore[attr-defined]
                     except Undecided:
                         return None
                 pts = self.conds_before(qn, n)
@@ -976,6 +1025,46 @@ class Escape:
             if any(a.id != site.id and site.id in cfg.reachable([a], avoid=[t]) for a in assigns):
                 return False
         return True
+
+    def cfg_const_guard(self, qn: str, n: ast.Subscript, k: str) -> T.Optional[str]:
+        """The lookup `M[k]` in a constant mapping M is only reachable through the true edge of a test `k in <constant collection>` /
+        `k == <constant>` whose constants are all keys of M, and `k` is not rebound in between (closed world: the folded key set)."""
+        keys = self.const_keys(n.value)
+        if keys is None:
+            return None
+        cfg = self.cfg(qn)
+        sites = cfg.node_containing(n)
+        if not sites:
+            return None
+        assigns = [a for a in cfg.nodes if a.kind in ('stmt', 'iter') and any(isinstance(x, ast.Name) and x.id == k and not isinstance(x.ctx, ast.Load)
+                                                                             for x in ast.walk(a.ast if a.kind == 'stmt' else a.ast.target))]
+        from_entry: T.Dict[int, T.Any] = {}
+        for t in cfg.nodes:
+            if t.kind != 'test':
+                continue
+            e = t.expr()
+            if not (isinstance(e, ast.Compare) and len(e.ops) == 1 and isinstance(e.left, ast.Name) and e.left.id == k and isinstance(e.ops[0], (ast.In, ast.Eq))):
+                continue
+            try:
+                c = fold_expr(self.repo, self.mod, e.comparators[0])
+            except Undecided:
+                continue
+            if isinstance(e.ops[0], ast.Eq):
+                dom = {c} if isinstance(c, str) else None
+            else:
+                dom = set(c) if isinstance(c, (set, frozenset, tuple, list)) and all(isinstance(x, str) for x in c) else None
+            if dom is None or not dom <= keys:
+                continue
+            false_succ = [cfg.nodes[b] for b, lab in cfg.succ[t.id] if lab is False]
+            good = True
+            for site in sites:
+                if site.id in cfg.reachable([cfg.entry], avoid=[t]) or site.id in cfg.reachable(false_succ, avoid=[t], include_start=True) \
+                        or any(a.id != site.id and site.id in cfg.reachable([a], avoid=[t]) for a in assigns):
+                    good = False
+                    break
+            if good:
+                return f'dominated by the test `{norm(e)}` (all of {sorted(dom)} are keys of `{norm(n.value)}`) with no assignment to `{k}` in between'
+        return None
 
     def has_guard(self, qn: str, n: ast.Subscript) -> bool:
         i, s = n.slice.id, norm(n.value)  # type: ignore[attr-defined]
